@@ -47,6 +47,10 @@ def layout_param(rng, name, kind):
         return {"name": name, "type": defgen.int_type(name, 8, tkind="bool")}, 8
     if kind == "cal":
         return {"name": name, "type": defgen.int_type(name, 8, default=["poly", [[docs.fnum(0.1), 1], [docs.fnum(-3.0), 0]]])}, 8
+    if kind == "ctxcal":   # calibrated only through a context calibrator (no default): derived values are floats
+        ctx = [{"criteria": [["cmp", {"ref": "SEQ_FLGS", "op": "==", "lit": "3", "cal": True}]],
+                "cal": ["poly", [[docs.fnum(0.25), 1], [docs.fnum(0.5), 0]]]}]
+        return {"name": name, "type": defgen.int_type(name, 8, context=ctx)}, 8
     if kind == "bin":
         n = rng.choice([8, 16, 24])
         return {"name": name, "type": {"name": name + "_T", "kind": "bin", "enc": {"t": "bin", "size": ["fixed", n]}}}, n
@@ -54,7 +58,7 @@ def layout_param(rng, name, kind):
     return {"name": name, "type": {"name": name + "_T", "kind": "str", "enc": {"t": "str", "charset": "ISO-8859-1", "size": ["fixed", n]}}}, n
 
 
-KINDS = ["uint", "sint", "f16", "f32", "f64", "mil", "enum", "bool", "cal", "bin", "str"]
+KINDS = ["uint", "sint", "f16", "f32", "f64", "mil", "enum", "bool", "cal", "ctxcal", "bin", "str"]
 
 
 def rnd_doc(rng):
@@ -86,7 +90,7 @@ def rnd_doc(rng):
 
 
 def field_bits(rng, kind, w):
-    if kind in ("uint", "sint", "cal", "bool"):
+    if kind in ("uint", "sint", "cal", "ctxcal", "bool"):
         return rng.choice([0, 1, (1 << w) - 1, 1 << (w - 1), rng.getrandbits(w)])
     if kind == "enum":
         return rng.randrange(4)
